@@ -30,6 +30,7 @@ Bind(x, F(_)) == IF IsErr(x) THEN x ELSE F(x)
 FixF17 == TRUE
 FixF18 == TRUE
 FixF20 == TRUE
+FixF28 == TRUE
 FixF22 == TRUE
 FixF23 == TRUE
 FixF24 == TRUE
@@ -310,7 +311,11 @@ Backtrack(op, t, pref) ==
            [] t.k = "bin" -> [t |-> t, done |-> FALSE]
            [] t.k = "xfer" ->
                 IF Eng(t.t) = pref
-                THEN Bind(ApplyUnary(op, t.t, DefaultOpts), LAMBDA x : [t |-> Xfer(t.dest, x), done |-> TRUE])
+                \* (fix of finding F28) the application may hand back a relation of ANOTHER engine (a join
+                \* with a join-identity relation returns the other operand): when that engine is the
+                \* transfer's own destination nothing is left to transfer
+                THEN Bind(ApplyUnary(op, t.t, DefaultOpts),
+                          LAMBDA x : [t |-> IF FixF28 /\ Eng(x) = t.dest THEN x ELSE Xfer(t.dest, x), done |-> TRUE])
                 ELSE Bind(Backtrack(op, t.t, pref), LAMBDA up :
                         \* (fix of finding F17) nothing inserted upstream: the tree ITSELF is returned; the
                         \* pinned-commit code rebuilt the transfer (transfer.reapply), which for a transfer
